@@ -55,7 +55,7 @@ CLAIMS['C08'] = {
 }
 CLAIMS['C09'] = {
     'text': 'Hand-written convenience rules are proved against K-contracts = the PEG evaluation of their documented expansion: until<C>, until<C,R>, rep<N>, rep_opt<N>, rep_min_max<Min,Max>, if_then_else, strict, star_strict, if_must/opt_must, must (ghost automata over oracle sub-rules, loops closed by loop contracts), and the leaves string, bytes, eolf, eof, bof, bol, everything, success, failure against closed-form byte-level specifications.',
-    'note': 'Alias-defined rules (list*, pad*, rep_min, rep_max, minus, star_must, two/three/forty_two, keyword, identifier, shebang, separated_seq, rep_string, if_then) are definitional compositions of rules under contract: not re-proved; rematch (1-3 rules) and contrib rep_one_min_max are under contract too; K-contracts are hand transcriptions of doc/Rule-Reference.md.',
+    'note': 'Alias-defined rules (list*, pad*, rep_min, rep_max, minus, star_must, if_must_else, two/three, keyword, identifier, shebang, contrib if_then chains) are compositions of rules under contract: their rule_t is compared by the compiler with the documented expansion (bounded/alias_identity.cpp, 31 type identities, listed with the native stand-ins); rematch (1-3 rules) and contrib rep_one_min_max are under contract too; K-contracts are hand transcriptions of doc/Rule-Reference.md.',
     'design': 'DESIGN.md section 5 C09',
 }
 
@@ -114,14 +114,17 @@ CLAIMS['C20'] = {
             'seq<IPv4address, eof>, seq<dec_octet, eof>, seq<h16, eof>, seq<ls32, eof> accept exactly the strings of the RFC 3986 section 3.2.2 productions (recogniser written from the RFC), consume the whole input then, restore the cursor otherwise and never raise; '
             'the building blocks of IPv6address - h16, ls32, the left parts opt<h16, rep_opt<K, ":", h16>> (K = 0..6) and the counted groups rep<N, h16, ":"> (N = 2..6) - are proved against PEG prefix-length functions for exactly the instantiations IPv6address calls '
             '(h16 replaced by an executable summary that is itself proved). '
-            'BOUNDED (not proved): the whole IPv6address rule followed by eof, and the same literal as host of URI / URI-reference / absolute-URI, run natively against the RFC recogniser on ~4.8 million strings '
-            '(all strings over {1,a,:,.,g} up to length 7, all group-count shapes with and without "::" and IPv4 tails, all single-character edits of them). '
-            'NOT DECIDED: the URI-level rules for arbitrary inputs (unbounded star/plus over a regular language).',
+            'BOUNDED (not proved): (a) the whole IPv6address rule followed by eof, and the same literal as host of URI / URI-reference / absolute-URI, run natively against the RFC recogniser on ~4.8 million strings '
+            '(all strings over {1,a,:,.,g} up to length 7, all group-count shapes with and without "::" and IPv4 tails, all single-character edits of them); '
+            '(b) URI, URI-reference and absolute-URI followed by eof run natively against a language-exact recogniser of RFC 3986 Appendix A (every production maps a set of start positions to the set of end positions, so ordered choice cannot hide a derivation) '
+            'on ~3 million strings: every string over "a1:/?#[]@.%,+-" up to length 5 (6 in thorough) and the product of component samples (schemes x userinfo x 16 host forms x ports x paths x queries x fragments). '
+            'This part found D13 (a reg-name host that starts like an IPv4address is rejected), listed as an open known finding. '
+            'NOT DECIDED: the URI-level rules beyond the enumerated space (unbounded star/plus over a regular language).',
     'note': 'Windows of at most 48 bytes with the cursor at the start (the longest IPv6 literal has 45 bytes; the rules read at most one byte beyond a literal). The whole IPv6address rule in one CBMC job needed 28-38 GB / gave no answer in 25 min (real bodies, or all components summarised), '
             'and the spec-against-spec lemma "PEG composition = RFC language" gave no answer in 20 min: hence the bounded native stand-in, listed under bounded_native_stand_ins in the evidence and not counted in obligations/discharged. '
-            'Outside the decided part (seen by a seeding agent, not by the check): host = sor<IP_literal, IPv4address, reg_name> commits to an IPv4address prefix, so "http://1.2.3.4x/" (a valid reg-name) is rejected.',
+            'D13: host = sor<IP_literal, IPv4address, reg_name> commits to an IPv4address prefix, so "a://1.2.3.4a" (a valid reg-name host) is rejected: open known finding, matched by the class label the enumerator prints.',
     'design': 'DESIGN.md section 5 C20',
-    'technique': 'CBMC code contracts on the lowered rule bodies with complete unwinding and assume-guarantee summaries; bounded exhaustive native enumeration for the whole IPv6address rule',
+    'technique': 'CBMC code contracts on the lowered rule bodies with complete unwinding and assume-guarantee summaries; bounded exhaustive native enumeration for the whole IPv6address rule and for the URI-level rules',
 }
 
 NOT_APPLICABLE = {
